@@ -402,7 +402,9 @@ prop("C12", level="exploration", engine="vgraph+vrt",
      technique="exhaustive differential replay of each definition compiled in str mode and in utf8=false mode on every enumerated valid UTF-8 input; product exploration of both graphs against the same reference over valid UTF-8 paths; acceptance of byte-only patterns",
      text="Ok tokens and spans are equal and the sets of bytes covered by errors are equal between the two modes for every enumerated valid UTF-8 input; byte-only patterns are rejected in str mode and accepted with utf8 = false.",
      note="Same trusted base as C01.", design_ref="5 C12",
-     steps=[step_vgraph("c12"), step_layer2(["u-dev"], ["u-dev", "u-rel", "f-dev", "f-rel"])],
+     steps=[step_vgraph("c12"), step_layer2(["u-dev"], ["u-dev", "u-rel", "f-dev", "f-rel"]),
+            # every Unicode scalar value through str / utf8 = false twins built by the real derive
+            step_vderive("sweep", ["tc-u-rel"], ["tc-u-rel", "sm-u-rel", "tc-f-rel"])],
      rules=["every str-mode definition of the compiled sub-corpus has a utf8=false twin; inputs: all valid UTF-8 strings <= L symbols + transition cover + loop inputs; non-trivial = expected stream has >= 2 items, an error or a skip"],
      assumptions=L2_ASSUME)
 prop("C20", level="model_checking", engine="vgraph+vrt",
